@@ -100,8 +100,13 @@ func (c *cache) flushScheduler() {
 					case <-c.closeCh:
 						return
 					}
-					b = sortedAddrs[i:i]
 					bs = 0
+					if handledAddr {
+						// current address is sent, next batch starts after it
+						b = sortedAddrs[i+1 : i+1]
+						break
+					}
+					b = sortedAddrs[i:i]
 				}
 				if handledAddr {
 					break
